@@ -2310,6 +2310,136 @@ def run_safe_sources(prop, tier, seed):
     return ev
 
 
+def check_begin_capture_mode(mir):
+    """(a) Output::begin_capture with the mode's discriminant symbolic: a buffer is pushed iff mode == Capture;
+       (b) in eval_impl the BeginCapture instruction's own mode reaches begin_capture unchanged"""
+    text = function_text(mir, r'^fn output::<impl [^>]*>::begin_capture\(')
+    ev_text = function_text(mir, EVAL_IMPL)
+    if text is None or ev_text is None:
+        return 'unknown', dict(kind='begin_capture / eval_impl not found in the MIR'), 0.0, {}
+    fn = parse_function(text)
+    d = z3.Int('capture_mode')
+    outcomes = []
+
+    def walk(bid, env, cond, depth):
+        blk = fn['blocks'][bid]
+        env = dict(env)
+        for st in blk['stmts']:
+            m = re.match(r'(_\d+) = discriminant\(_2\);', st)
+            if m:
+                env[m.group(1)] = d
+            if re.match(r'_\d+ = Option::<(?:std::string::)?String>::None;', st):
+                outcomes.append((cond, 'none'))
+                return
+            if re.match(r'_\d+ = Option::<(?:std::string::)?String>::Some\(', st):
+                outcomes.append((cond, 'buffer'))
+                return
+        term = blk['term']
+        m = re.match(r'switchInt\((?:move|copy) (_\d+)\) -> \[(.*)\];', term)
+        if m and m.group(1) in env:
+            seen = []
+            for part in m.group(2).split(', '):
+                kk, tgt = part.split(': ')
+                if kk == 'otherwise':
+                    c2 = z3.And(*[env[m.group(1)] != x for x in seen]) if seen else z3.BoolVal(True)
+                else:
+                    c2 = env[m.group(1)] == int(kk)
+                    seen.append(int(kk))
+                if fn['blocks'][tgt]['term'] != 'unreachable;' and depth < 30:
+                    walk(tgt, env, z3.And(cond, c2), depth + 1)
+            return
+        if depth < 30:
+            for tgt in sorted(set(t_ for _, t_ in successors(term))):
+                if not fn['blocks'][tgt]['cleanup'] and fn['blocks'][tgt]['term'] != 'unreachable;':
+                    walk(tgt, env, cond, depth + 1)
+    walk('bb0', {}, z3.BoolVal(True), 0)
+    src = open(os.path.join(REPO, 'minijinja', 'src', 'output.rs'), encoding='utf-8').read()
+    m = re.search(r'pub enum CaptureMode \{(.*?)\n\}', src, re.S)
+    modes = re.findall(r'^\s{4}([A-Z]\w*)', re.sub(r'\s*///[^\n]*', '', m.group(1)), re.M) if m else []
+    if 'Capture' not in modes or not outcomes:
+        return 'unknown', dict(kind='cannot read begin_capture (%d outcomes, modes %s)' % (len(outcomes), modes)), 0.0, {}
+    s_ = z3.Solver()
+    s_.set('timeout', 30000)
+    s_.add(d >= 0, d < len(modes))
+    cap = modes.index('Capture')
+    bad_body = z3.Or(*[z3.And(c, (d != cap) if o == 'buffer' else (d == cap)) for c, o in outcomes])
+    # (b) call sites in eval_impl
+    efn = parse_function(ev_text)
+    defs = {}
+    for blk in efn['blocks'].values():
+        for st in blk['stmts']:
+            m = re.match(r'(_\d+) = (.*);$', st)
+            if m:
+                defs.setdefault(m.group(1), []).append(m.group(2))
+    sites = []
+    ok_sites = []
+    for bid, blk in efn['blocks'].items():
+        dst, callee = call_of(blk['term'])
+        mm = callee and re.match(r'output::Output::<[^>]*>::begin_capture\((?:move|copy) _\d+, (?:move|copy) (_\d+)\)', callee)
+        if not mm:
+            continue
+        ds = defs.get(mm.group(1), [])
+        kind = 'other'
+        if len(ds) == 1 and re.match(r'(?:output::)?CaptureMode::\w+$', ds[0]):
+            kind = 'constant'
+        elif len(ds) == 1 and re.match(r'copy \(\*(_\d+)\)$', ds[0]):
+            r_ = re.match(r'copy \(\*(_\d+)\)$', ds[0]).group(1)
+            rd = defs.get(r_, [])
+            if len(rd) == 1 and re.match(r'&\(\(\(\*_\d+\) as BeginCapture\)\.0: output::CaptureMode\)$', rd[0]):
+                kind = 'instruction'
+        sites.append(dict(block=bid, mode=ds, kind=kind))
+    n_instr = z3.IntVal(sum(1 for x in sites if x['kind'] == 'instruction'))
+    n_other = z3.IntVal(sum(1 for x in sites if x['kind'] == 'other'))
+    s_.add(z3.Or(bad_body, n_instr != 1, n_other != 0))
+    t0 = time.time()
+    r = s_.check()
+    dt = time.time() - t0
+    stats = dict(paths=len(outcomes), modes=modes, sites=sites)
+    if r == z3.unsat:
+        return 'sat', None, dt, stats
+    if r == z3.sat:
+        if any(x['kind'] == 'other' for x in sites) or sum(1 for x in sites if x['kind'] == 'instruction') != 1:
+            return 'unsat', dict(kind='the BeginCapture arm does not hand the instruction\'s own capture mode to begin_capture (mode comes from %s)' % [x['mode'] for x in sites if x['kind'] == 'other'][:1]), dt, stats
+        mv = s_.model().eval(d, model_completion=True).as_long()
+        return 'unsat', dict(kind='begin_capture under CaptureMode::%s %s' % (modes[mv], 'pushes no buffer' if mv == cap else 'pushes a buffer')), dt, stats
+    return str(r), None, dt, stats
+
+
+def run_begin_capture(prop, tier, seed):
+    t0 = time.time()
+    ev = dict(engine='M', violations=[], known_hits=[], problems=[], coverage={})
+    try:
+        mir = dump_mir(REPO, os.path.join(BUILD, 'mir'))
+        v, info, dt, stats = check_begin_capture_mode(mir)
+    except MirError as e:
+        ev['problems'].append('engine M: %s' % e)
+        return ev
+    res = dict(op='begin_capture_mode', function='Output::begin_capture and the BeginCapture arm of eval_impl', verdict=v, conflict=(info or {}).get('kind'), z3_s=round(dt, 3), **stats)
+    err = build_tool('vmexits')
+    if err:
+        ev['problems'].append('engine M: native scenario tool did not build: ' + err[-300:])
+        return ev
+    scen = [s for s in run_vmexits() if s['check'] == 'begin_capture_mode']
+    failing = [s for s in scen if not s['ok']]
+    if v == 'unsat':
+        if failing:
+            rp = os.path.join(nativelib.replay_dir(), '%s-M-begin-capture.json' % prop)
+            json.dump(dict(engine='M', kind='eval_impl', check='begin_capture_mode', property=prop, mir_finding=res, scenarios=failing,
+                           how='bin/check %s --replay %s' % (prop, rp)), open(rp, 'w'), indent=1)
+            ev['violations'].append(dict(replay=rp, failed=[dict(desc='%s; native scenario %s: %s' % (res['conflict'], failing[0]['scenario'], failing[0]['detail'][:220]),
+                                                                 loc='minijinja/src/vm/mod.rs BeginCapture arm / output.rs (MIR)')]))
+        else:
+            ev['problems'].append('engine M: %s, but no native scenario misbehaves' % res['conflict'])
+    elif v != 'sat':
+        ev['problems'].append('engine M: begin_capture: %s %s' % (v, res.get('conflict') or ''))
+    elif failing:
+        ev['problems'].append('engine M: native scenario %s misbehaves (%s) although the capture mode of the instruction reaches begin_capture' % (failing[0]['scenario'], failing[0]['detail'][:200]))
+    log('[%s] engine M (begin_capture mode): %s; %d native scenarios, %d misbehaving' % (prop, v, len(scen), len(failing)))
+    ev['coverage'] = dict(queries=1, results=[res], native_scenarios=len(scen), native_scenarios_failing=len(failing), function='Output::begin_capture / eval_impl BeginCapture arm', check='begin_capture_mode')
+    ev['wall_s'] = round(time.time() - t0, 1)
+    return ev
+
+
 def run_captures(prop, tier, seed):
     t0 = time.time()
     ev = dict(engine='M', violations=[], known_hits=[], problems=[], coverage={})
